@@ -474,17 +474,15 @@ Theorem C05_HFSTS_other_devices_irrelevant : forall n l ee,
 Proof. exact HFSTS_other_devices_irrelevant. Qed.
 Print Assumptions C05_HFSTS_other_devices_irrelevant.
 
-(** a delivered word is the register of that first device - or the made-up 0 of a platform
-    without ME device (finding C05-HFSTS-no-ME-device, below) *)
+(** a delivered word is the register of that first device, on every platform *)
 Theorem C05_HFSTS_word_origin : forall n l ee w, read_hfsts n l ee = HWord w ->
-  (exists pre d post, l = pre ++ d :: post /\ no_me pre /\ is_me d = true /\ hfsts_word n d = Some w) \/
-  (no_me l /\ ee = false /\ w = 0).
+  exists pre d post, l = pre ++ d :: post /\ no_me pre /\ is_me d = true /\ hfsts_word n d = Some w.
 Proof. exact HFSTS_word_origin. Qed.
 Print Assumptions C05_HFSTS_word_origin.
 
-(** the code as it is on a platform without ME device *)
-Theorem C05_HFSTS_no_device : forall n l ee, 1 <= n <= 6 -> no_me l ->
-  read_hfsts n l ee = if ee then HErr else HWord 0.
+(** a platform without ME device: an error, for every register, with or without enumeration
+    error (former finding C05-HFSTS-no-ME-device, repaired by f889c7f) *)
+Theorem C05_HFSTS_no_device : forall n l ee, no_me l -> read_hfsts n l ee = HErr.
 Proof. exact HFSTS_no_device. Qed.
 Print Assumptions C05_HFSTS_no_device.
 
@@ -524,22 +522,35 @@ Theorem C05_ValidateME_platform_first : forall v pre d post ee b k i, no_me pre 
 Proof. exact ValidateME_platform_first. Qed.
 Print Assumptions C05_ValidateME_platform_first.
 
-(** ... so a success is a success for that device.  PARTIAL: the platform has an ME device. *)
-Theorem C05_ValidateME_platform_sound_partial : forall v l ee b k i,
-  (exists x, In x l /\ is_me x = true) ->
+(** ... so a success is a success for that device, on every platform *)
+Theorem C05_ValidateME_platform_sound : forall v l ee b k i,
   validate_me_plat v l ee b k i = good ->
   exists pre d post w, l = pre ++ d :: post /\ no_me pre /\ is_me d = true /\
     hfsts_word 6 d = Some w /\ validate_me v (decode_hfsts6 w) b k i = good.
-Proof. exact ValidateME_platform_sound_partial. Qed.
-Print Assumptions C05_ValidateME_platform_sound_partial.
+Proof. exact ValidateME_platform_sound. Qed.
+Print Assumptions C05_ValidateME_platform_sound.
 
-(** finding C05-HFSTS-no-ME-device: without ME device the status readers make up an all-zero
-    status instead of failing, and manifests with SVNs and key manifest id 0 "agree" with it *)
-Theorem C05_HFSTS_no_device_failclosed_refuted :
-  exists l, no_me l /\ read_hfsts 6 l false = HWord 0 /\ read_hfsts 1 l false = HWord 0 /\
-    validate_me_plat 2 l false 0 0 0 = good /\ test_validate_me_plat 2 l false 0 0 0 = pass.
-Proof. exact HFSTS_no_device_failclosed_refuted. Qed.
-Print Assumptions C05_HFSTS_no_device_failclosed_refuted.
+(** former finding C05-HFSTS-no-ME-device: without ME device neither reader delivers a status
+    and no verdict or pkg/test entry point fed from the platform succeeds *)
+Theorem C05_HFSTS_no_device_failclosed : forall l ee, no_me l ->
+  (forall n, read_hfsts n l ee = HErr) /\
+  get_hfsts1 l ee = None /\ get_hfsts6 l ee = None /\
+  (forall strict v msr, sane_me_plat strict v l ee msr = bad /\ test_sane_me_plat strict v l ee msr = fail) /\
+  (forall v b k i, validate_me_plat v l ee b k i = bad /\ test_validate_me_plat v l ee b k i = fail).
+Proof. exact HFSTS_no_device_failclosed. Qed.
+Print Assumptions C05_HFSTS_no_device_failclosed.
+
+(** the former witness (host bridge and LPC bridge only, manifests with SVNs / key manifest id
+    0): rejected now; the reader before the repair ([read_hfsts_legacy]) made up the status 0,
+    with which these manifests agree *)
+Theorem C05_HFSTS_no_device_witness :
+  no_me plat_no_me /\
+  read_hfsts 6 plat_no_me false = HErr /\ validate_me_plat 2 plat_no_me false 0 0 0 = bad /\
+  test_validate_me_plat 2 plat_no_me false 0 0 0 = fail /\
+  read_hfsts_legacy 6 plat_no_me false = HWord 0 /\
+  validate_me 2 (decode_hfsts6 0) 0 0 0 = good.
+Proof. exact HFSTS_no_device_witness. Qed.
+Print Assumptions C05_HFSTS_no_device_witness.
 
 (** the pkg/test entry points pass exactly when the verdict fed from the platform succeeds,
     and never panic *)
